@@ -97,7 +97,8 @@ Definition sweep_step (c : corr) (sw : sweep) : corr * sweep * option swout :=
     end
   end.
 
-(* put(message), the part after the sweep: stored_at is read after the sweep *)
+(* put(message), the part before the sweep: the request is stored first, with the clock reading of that moment (fix: the
+   sweep awaits the application's hook, and the response to this request may be processed meanwhile) *)
 Definition put_store (c : corr) (now : Q) (m : smsg) (eid : Z) : corr :=
   let c1 := with_store c (dset (c_store c) (sm_seq m) {| e_at := now; e_msg := m; e_id := eid |}) in
   if is_submit m then
@@ -154,7 +155,7 @@ Record gstate := { g_corr : corr; g_calls : dict call; g_next : Z }.
 Inductive cevent :=
 | CBegin (task : Z) (o : cop) (now : Q)   (* the call starts; `now` is the reading of its sweep *)
 | CStep (task : Z)                        (* one iteration of that task's sweep (it may then suspend in the hook) *)
-| CFinish (task : Z) (now : Q).           (* sweep exhausted: the call completes; put reads the clock again *)
+| CFinish (task : Z) (now : Q).           (* sweep exhausted: the call completes *)
 
 Inductive cout :=
 | OExpired (o : swout)                    (* an entry was expired by a sweep *)
@@ -169,8 +170,10 @@ Definition gstep (g : gstate) (ev : cevent) : gstate * list cout :=
     | None =>
       match o with
       | OpPut m =>
-        let k := {| k_op := o; k_sweep := sweep_start (g_corr g) now; k_bound := g_next g |} in
-        ({| g_corr := g_corr g; g_calls := dset (g_calls g) t k; g_next := g_next g |}, [])
+        let c1 := put_store (g_corr g) now m (g_next g) in
+        let k := {| k_op := o; k_sweep := sweep_start c1 now; k_bound := g_next g + 1 |} in
+        ({| g_corr := c1; g_calls := dset (g_calls g) t k; g_next := g_next g + 1 |},
+         [OStored t {| e_at := now; e_msg := m; e_id := g_next g |}])
       | OpGet r =>
         let '(c1, e) := get_pop (g_corr g) r in
         let k := {| k_op := o; k_sweep := sweep_start c1 now; k_bound := g_next g |} in
@@ -192,13 +195,7 @@ Definition gstep (g : gstate) (ev : cevent) : gstate * list cout :=
       match sw_keys (k_sweep k) with
       | _ :: _ => (g, [])                 (* the sweep is not finished yet *)
       | [] =>
-        match k_op k with
-        | OpPut m =>
-          let c1 := put_store (g_corr g) now m (g_next g) in
-          ({| g_corr := c1; g_calls := ddel t (g_calls g); g_next := g_next g + 1 |},
-           [OStored t {| e_at := now; e_msg := m; e_id := g_next g |}])
-        | OpGet _ => ({| g_corr := g_corr g; g_calls := ddel t (g_calls g); g_next := g_next g |}, [])
-        end
+        ({| g_corr := g_corr g; g_calls := ddel t (g_calls g); g_next := g_next g |}, [])
       end
     end
   end.
